@@ -154,6 +154,8 @@ def install(vm):
     def cond_wait(vm, s, c, args, kw):
         timeout = args[0] if args else kw.get("timeout")
         lk = cond_lock(c)
+        if vm.sched is not None and s.frames[-1].phase == 1:
+            return vm.sched.cond_wait(vm, s, c, timeout)  # resumption of a wait that already released the lock
         mine = owner_is(lk, s.tid)
         if mine is not TRUE:
             vm.raise_under(s, NOT(mine), RuntimeError("cannot wait on un-acquired lock"))
@@ -275,12 +277,23 @@ def install(vm):
         if tgt is None:
             return None
         from .vm import _Pending
-        return _Pending(vm.do_call(s, tgt, list(self.get("_args")), {}, ("push",)))
+        a = self.get("_args")
+        if type(a) is VList:
+            a = [v for _, v in a.slots]
+        return _Pending(vm.do_call(s, tgt, list(a), {}, ("push",)))
 
     def th_setdaemon(vm, s, args, kw):
         args[0].set("daemon", args[1], s.guard)
         return None
 
+    def th_new(vm, s, args, kw):
+        inst = VInst(T, birth=s.guard)
+        vm.nobjects = getattr(vm, "nobjects", 0) + 1
+        inst.tag = vm.nobjects
+        th_init(vm, s, [inst] + list(args), kw)
+        return inst
+
+    reg(T, th_new)
     reg(T.__init__, th_init)
     reg(T.start, th_start)
     reg(T.is_alive, th_is_alive)
